@@ -159,8 +159,8 @@ def run_check(spec, tier, seed):
         seen.add(x['obligation'])
         modname = [m for m, rs in per_module.items() if any(r['function'] == x['function'] for r in rs)][0]
         mod = importlib.import_module(modname)
-        c = [c for c in mod.CONTRACTS if c.target == x['function']][0]
-        cfg = [cf for cf in c.configs(tier) if c.cfg_name(cf) == x['config']][0]
+        # several contracts may sit on one function (different paths of it): take the one that owns this configuration
+        c, cfg = next((c, cf) for c in mod.CONTRACTS if c.target == x['function'] for cf in c.configs(tier) if c.cfg_name(cf) == x['config'])
         nat = None
         try:
             nat = c.native(cfg, x['valuation'])
